@@ -13,14 +13,13 @@ theorem inv_init (c : Conf) : Inv (init c) := by
   have hnil : ∀ (id : String × String) (q : Pod), Tbl.get ([] : Pods) id = some q → False := by
     intro id q h; cases h
   have hlb : ∀ q, ¬ LiveBound ([] : Pods) q := fun q hq => hnil _ _ hq.1
-  refine ⟨⟨?_, ?_, ?_, ?_, ?_, ?_⟩, ⟨?_, ?_⟩, ?_, ?_, ?_, ?_, ?_, ?_, ?_, ?_⟩
+  refine ⟨⟨?_, ?_, ?_, ?_, ?_, ?_⟩, ⟨?_⟩, ?_, ?_, ?_, ?_, ?_, ?_, ?_, ?_⟩
   · intro _; rfl
   · intro _ _; rfl
   · intro _ r h; cases h
   · intro ip h; exact allIPs_configured _ _ h
   · exact List.nodup_nil
   · exact List.nodup_nil
-  · intro q hq; exact absurd hq (hlb q)
   · intro q hq; exact absurd hq (hlb q)
   · intro id q h; exact (hnil id q h).elim
   · intro id1 _ q1 _ h; exact (hnil id1 q1 h).elim
@@ -139,8 +138,7 @@ theorem unassign_step (s : State) (m : Move) (h : Inv s) (ha : assumed s m = tru
   | syncPodIPs f => exact UnassignsWithin.of_plog_eq _ (syncPodIPs_spec _ (h0 f 0)).2.2
   | apiRelease ip k f pf => exact (apiRelease_spec _ ip k (h0 f pf)).2.2
   | reload pools fault =>
-    obtain ⟨hf, hk⟩ := assumed_reload ha
-    exact UnassignsWithin.of_plog_eq _ (reload_spec (withFaults s fault 0) pools (h0 fault 0) rfl hf hk).2.2
+    exact UnassignsWithin.of_plog_eq _ (reload_spec (withFaults s fault 0) pools (h0 fault 0) (assumed_reload (s := s) ha)).2.2
   | restart =>
     apply UnassignsWithin.of_plog_eq
     simp only [step]
@@ -150,8 +148,8 @@ theorem unassign_step (s : State) (m : Move) (h : Inv s) (ha : assumed s m = tru
     dsimp only
     split
     · rfl
-    · show (deleteAll _ _).plog = s.plog
-      rw [deleteAll_plog]; rfl
+    · show (dropAll _ _).plog = s.plog
+      rw [(dropAll_fields _ _).2.2.2.2.2.2.2]; rfl
 
 /-! ### statements used by Props/C04 and Props/C01 -/
 
